@@ -254,7 +254,7 @@ Definition multiply_exponent_extended (k : fkind) (fp : efloat) (exponent : Z) (
   if exponent <? 0 then (mkEF 0%N (exp fp), true)
   else if Z.of_nat (length BASE10_LARGE_MANTISSA) <=? large_index then (mkEF 9223372036854775808%N 2047, true)
   else
-    let errors0 : N := if truncated then ERROR_HALFSCALE else 0%N in
+    let errors0 : N := if truncated then N.shiftl ERROR_SCALE (Z.to_N (Z.min (clz64 (mant fp)) 3)) else 0%N in   (* error_scale() << leading_zeros().min(3) *)
     let prod := (mant fp * get_small_int (Z.to_nat small_index))%N in
     let '(fp1, errors1) :=
       if (two64N <=? prod)%N then
@@ -292,12 +292,15 @@ Definition big_hi64 (z : Z) : N * bool :=
     if bl <=? 64 then (Z.to_N (z * 2 ^ (64 - bl)), false)
     else (Z.to_N (z / 2 ^ (bl - 64)), negb (z mod 2 ^ (bl - 64) =? 0)).
 
-(* parse_mantissa: the first MAX_DIGITS-1 digits as an integer; a trailing 1 stands for any further digits *)
+(* parse_mantissa: the first MAX_DIGITS-1 digits as an integer; a trailing 1 stands for any further NON-ZERO digits, a trailing 0 if all
+   further digits are zeros (fix F21) *)
 Definition parse_mantissa (k : fkind) (integer fraction : bytes) : Z :=
   let ds := integer ++ fraction in
   let max_digits := (MAX_DIGITS k - 1)%nat in
   let v := digits_val (firstn max_digits ds) 0 in
-  if Nat.ltb max_digits (length ds) then v * 10 + 1 else v.
+  if Nat.ltb max_digits (length ds)
+  then v * 10 + (if existsb (fun d => negb (N.eqb d 48)) (skipn max_digits ds) then 1 else 0)   (* any non-zero digit left *)
+  else v.
 
 Definition b_extended (k : fkind) (bits : N) : efloat := ef_from_float k bits.
 Definition bh_extended (k : fkind) (bits : N) : efloat :=
